@@ -1444,15 +1444,17 @@ fn process_path_renames(
         let entry = entry?;
         let path = entry.path();
         let relative_path = path.strip_prefix(root).unwrap_or(path);
+        // include/exclude globs are relative to the search path that contains the entry
+        let glob_path = paths.iter().find_map(|p| path.strip_prefix(p).ok()).unwrap_or(relative_path);
 
         // Skip if doesn't match includes or matches excludes
         if let Some(globs) = include_globs {
-            if !globs.is_match(relative_path) {
+            if !globs.is_match(glob_path) {
                 continue;
             }
         }
         if let Some(globs) = exclude_globs {
-            if globs.is_match(relative_path) {
+            if globs.is_match(glob_path) {
                 continue;
             }
         }
@@ -1565,15 +1567,17 @@ pub fn create_simple_plan(
         let entry = entry?;
         let path = entry.path();
         let relative_path = path.strip_prefix(&root).unwrap_or(path);
+        // include/exclude globs are relative to the search path that contains the entry
+        let glob_path = paths.iter().find_map(|p| path.strip_prefix(p).ok()).unwrap_or(relative_path);
 
         // Skip if doesn't match includes or matches excludes
         if let Some(globs) = &include_globs {
-            if !globs.is_match(relative_path) {
+            if !globs.is_match(glob_path) {
                 continue;
             }
         }
         if let Some(globs) = &exclude_globs {
-            if globs.is_match(relative_path) {
+            if globs.is_match(glob_path) {
                 continue;
             }
         }
